@@ -53,8 +53,14 @@ def pool(tier):
     pairs = [("center", "center"), ("left", "left")] + ([("left", "center")] if tier == "thorough" else [])
     for px, py in pairs:
         for k in (1, 2):
-            vs.append(MG.make_var(f"a_{S.SHORT[px]}{S.SHORT[py]}{k}", ("X", "Y"), {"X": px, "Y": py}, pit))
+            # the second variable of a slot stores its dimensions in the other order: same position, same slot
+            posn = {"X": px, "Y": py} if k == 1 else {"Y": py, "X": px}
+            vs.append(MG.make_var(f"a_{S.SHORT[px]}{S.SHORT[py]}{k}", ("X", "Y"), posn, pit))
     return vs
+
+
+def slot_of(v):
+    return (frozenset(v.axes), tuple(sorted(v.dims)))
 
 
 _P = {}
@@ -64,15 +70,15 @@ def ctx(tier):
     if tier not in _P:
         vs = pool(tier)
         byname = {v.name: v for v in vs}
-        slots = sorted({(frozenset(v.axes), v.dims) for v in vs}, key=lambda s: (sorted(s[0]), s[1]))
+        slots = sorted({slot_of(v) for v in vs}, key=lambda s: (sorted(s[0]), s[1]))
         ds = MG.dataset(vs)
         acts = []
         for axes in (("X",), ("Y",), ("X", "Y")):
             mine = [v for v in vs if v.axes == axes]
-            myslots = sorted({v.dims for v in mine})
+            myslots = sorted({slot_of(v)[1] for v in mine})
             for k in (1, 2, 3):
                 for sl in itertools.combinations(myslots, k):
-                    for choice in itertools.product(*[[v for v in mine if v.dims == s] for s in sl]):
+                    for choice in itertools.product(*[[v for v in mine if slot_of(v)[1] == s] for s in sl]):
                         for perm in itertools.permutations(choice):
                             for ow in (False, True):
                                 acts.append((axes, tuple(v.name for v in perm), ow))
@@ -100,7 +106,10 @@ def key_of(k):
 def apply_action(c, g, act):
     """returns (grid, None) or (grid, exception).  A constructor action builds the grid."""
     try:
-        if act.get("ctor"):
+        if act.get("ctor") and "k2" in act:
+            # first variable under the first spelling, second variable under the second spelling
+            g = new_grid(c, metrics={key_of(act["k"]): [act["v"][0]], key_of(act["k2"]): [act["v"][1]]})
+        elif act.get("ctor"):
             g = new_grid(c, metrics={key_of(act["k"]): list(act["v"])})
         else:
             g.set_metrics(key_of(act["k"]) if not isinstance(act["k"], list) else list(act["k"]), list(act["v"]) if len(act["v"]) > 1 or act.get("aslist") else act["v"][0], overwrite=act["ow"])
@@ -146,8 +155,8 @@ def read_state(c, g):
         name = None
         if not warned:
             for v in c["vars"]:
-                if frozenset(v.axes) == axes and v.dims == dims and set(got.dims) == set(dims):
-                    if np.array_equal(got.transpose(*dims).values, v.values):
+                if slot_of(v) == (axes, dims) and set(got.dims) == set(dims):
+                    if np.array_equal(got.transpose(*v.dims).values, v.values):
                         name = v.name
             # no variable of this slot: the answer is a product of blocks registered at this
             # position (slot empty); its admissibility is judged below against C10's oracle
@@ -197,7 +206,7 @@ def check_admissible(c, rec, occ, info, case):
 
 def slot_index(c, name):
     v = c["byname"][name]
-    return c["slots"].index((frozenset(v.axes), v.dims))
+    return c["slots"].index(slot_of(v))
 
 
 def expected(c, occ, act):
@@ -291,6 +300,15 @@ def first_actions(c):
     for a in c["actions"]:
         if not a["ow"]:
             ctor.append(dict(k=a["k"] if not isinstance(a["k"], str) else a["k"], v=a["v"], ow=False, ctor=True))
+    # metrics= with two differently spelled keys for the same axis set: both entries count, in order
+    for a in c["actions"]:
+        if a["ow"] or len(a["v"]) != 2:
+            continue
+        k1 = a["k"]
+        k2 = list(reversed(k1)) if isinstance(k1, list) and len(k1) == 2 else ([k1] if isinstance(k1, str) else k1[0])
+        if k2 == k1:
+            continue
+        ctor.append(dict(k=k1, v=a["v"], ow=False, ctor=True, k2=k2))
     return acts + ctor
 
 
